@@ -68,6 +68,8 @@ fn tamper_all(ctx: &mut Ctx, enc: &Envelope, key: &SymmetricKey, rng: &mut crate
     };
     let inst = |r: Result<EncryptedMessage, String>| r.and_then(|m| install(enc, m));
     // every single-bit flip of every field (ciphertext sampled above 256 bytes unless exhaustive)
+    // (exhaustive up to 8 KiB of ciphertext: every flip costs a copy and a decryption of the whole message)
+    let exhaustive = exhaustive && ct.len() <= 8192;
     let ct_bits: Vec<usize> = if exhaustive || ct.len() <= 256 { (0..ct.len() * 8).collect() } else { (0..1024).map(|_| rng.below(ct.len() * 8)).collect() };
     if exhaustive || ct.len() <= 256 {
         ctx.count("exhaustive_bitflip_messages");
